@@ -424,15 +424,28 @@ def lex_once(text):
     return time.perf_counter() - t
 
 
-def lex_time(text):
+class _FirstError(Exception):
+    pass
+
+
+def _raise_first(m, l, c):
+    raise _FirstError()
+
+
+def lex_time(text, stop_at_error=False):
+    """stop_at_error: like parse(), whose error callback raises - the work after
+    the first lexical error is never done by a parse"""
     best = None
     for _ in range(5):
-        lx = CLexer(lambda m, l, c: None, lambda: None, lambda: None, lambda n: False)
+        lx = CLexer(_raise_first if stop_at_error else (lambda m, l, c: None), lambda: None, lambda: None, lambda n: False)
         lx.input(text)
         t = time.perf_counter()
-        for _k in range(len(text) + 3):
-            if lx.token() is None:
-                break
+        try:
+            for _k in range(len(text) + 3):
+                if lx.token() is None:
+                    break
+        except _FirstError:
+            pass
         dt = time.perf_counter() - t
         best = dt if best is None or dt < best else best
         if dt > 2.0:
@@ -479,6 +492,28 @@ def lex_shard(names):
             if bad >= 2:
                 st.failures.append(dict(subcheck="lexer-time", case=case, text=f(8), detail="family %s: lexing time %s grows > 3.5x per doubling twice in a row" % (name, [(n, round(t, 4)) for n, t in series]), sig="lexer-superlinear"))
                 break
+        # a quadratic regex with a small constant needs thousands of characters
+        # before it rises above the timing floor (1 ms at 512 characters, 1 s at
+        # 16 000): the same test on long inputs, up to the first lexical error (a
+        # lexer that is told to go on after errors re-scans the rest of an
+        # unterminated string at every quote - parse() never does that)
+        if not any(fl["case"] == case for fl in st.failures):
+            long_series = []
+            for n in (2000, 4000, 8000, 16000):
+                long_series.append((n, lex_time(f(n), True)))
+                st.evaluations += 1
+                if long_series[-1][1] > 5.0:
+                    break
+            bad = 0
+            for (n1, t1), (n2, t2) in zip(long_series, long_series[1:]):
+                bad = bad + 1 if (t2 > 0.02 and t2 > 3.0 * t1) else 0
+                if bad >= 2:
+                    again = [(n, lex_time(f(n), True)) for n, _ in long_series]
+                    if all(b[1] > 0.02 and b[1] > 3.0 * a[1] for a, b in zip(again[-3:], again[-2:])):
+                        st.failures.append(dict(subcheck="lexer-time", case=case, text=f(8), detail="family %s: lexing time %s (re-measured %s) grows > 3x per doubling twice in a row on long inputs" % (name, [(n, round(t, 4)) for n, t in long_series], [(n, round(t, 4)) for n, t in again]), sig="lexer-superlinear"))
+                    else:
+                        st.classes["timing_suspicions_not_confirmed"] += 1
+                    break
         st.nontrivial += 1
         if name in ("octal_escapes_in_char", "unterminated_string"):
             st.sample(dict(family=name, text=f(6), times=[(n, round(t, 5)) for n, t in series]))
